@@ -9,6 +9,7 @@ import (
 	"github.com/elastos/Elastos.ELA/blockchain"
 	"github.com/elastos/Elastos.ELA/common"
 	"github.com/elastos/Elastos.ELA/common/config"
+	"github.com/elastos/Elastos.ELA/core/contract"
 	"github.com/elastos/Elastos.ELA/core/types"
 	common2 "github.com/elastos/Elastos.ELA/core/types/common"
 	"github.com/elastos/Elastos.ELA/core/types/interfaces"
@@ -125,6 +126,7 @@ type run struct {
 	newViols             int
 	seenSig              map[string]bool
 	faultCtx             string // what the last fault crossed; part of twin-divergence signatures
+	collapseSig          string // when set, every twin difference is reported under this one signature
 	twinProp, twinOracle string // property judged by the twin comparison (C22 after rollbacks, C23 after restarts)
 	stats                map[string]int
 }
@@ -152,6 +154,12 @@ func execute(c *core.Ctx) {
 	}
 	for _, cd := range r.act.cands {
 		r.keyByPub[string(cd.pub)] = cd.keyPair
+	}
+	stakeHolders = nil
+	for _, v := range r.act.voters {
+		if ct, err := contract.CreateStakeContractByCode(v.code); err == nil {
+			stakeHolders = append(stakeHolders, *ct.ToProgramHash())
+		}
 	}
 	r.byzMiner = p.Knob("byzMiner", 0) == 1
 	r.stepwise = p.Knob("stepwiseRollback", 1) == 1
@@ -474,8 +482,12 @@ func (r *run) rollback(depth int) {
 	}
 	post := r.observe(r.primary)
 	r.faultCtx = "rollback"
+	r.collapseSig = ""
 	r.twinProp, r.twinOracle = "C22", "twin"
-	if pre.lastCommittee != post.lastCommittee || pre.session != post.session {
+	if pre.lastCommittee != post.lastCommittee || pre.session != post.session || pre.nextMembers != post.nextMembers ||
+		pre.members != post.members {
+		// a committee change, the election of the next committee (DPoS v2 era), or
+		// the dissolution of a committee without successors
 		r.c.Probe("rollback-crossed-committee-change")
 		r.faultCtx = "rollback-across-committee-change"
 	}
